@@ -100,4 +100,18 @@ EnumViol(ev) ==
     \cup V(NonEmpty(ev.afterDelete) = NonEmpty([k \in 1..Len(ev.before) |-> ShiftRef(ev.before[k], ev.deleted)]), "NoStaleIndexAfterDelete")
     \cup V(NonEmpty(ev.afterOrder) = NonEmpty([k \in 1..Len(ev.before) |-> MapRef(ev.before[k], ev.order)]), "NoStaleIndexAfterReorder")
     \cup V(~ev.stringTable \/ ev.stringsAfterRebuild = ev.stringsBefore, "NoStaleStringIndexAfterRebuild")
+
+(* ---------------- C08: the reference build and the current build read and re-encode the same file the same way ---------------- *)
+\* ev.ref / ev.cur: [rc, in, out] of Load + raw Save of one file by each build; ev.writer says which build wrote the file
+SameDescribed(a, b) == a.len = b.len /\ a.nblocks = b.nblocks /\ a.types = b.types /\ a.tidx = b.tidx /\ a.sizes = b.sizes
+                       /\ a.strings = b.strings /\ a.blockHashes = b.blockHashes /\ a.whole = b.whole
+TwoBuildViol(ev) ==
+    V(ev.ref.rc = ev.cur.rc, "SameLoadResult")
+    \cup (IF ev.ref.rc # 0 \/ ev.cur.rc # 0 THEN {}
+          ELSE V(SameDescribed(ev.ref.out, ev.cur.out), "SameReEncoding")
+               \* a file in normal form written by one build is consumed block by block and re-encoded identically by the other
+               \cup V(ev.writer = "sample" \/ ~ev.ref["in"].hs \/ ev.ref.out.sizes = ev.ref["in"].sizes, "ReferenceConsumesEveryBlockExactly")
+               \cup V(ev.writer = "sample" \/ ~ev.cur["in"].hs \/ ev.cur.out.sizes = ev.cur["in"].sizes, "CurrentConsumesEveryBlockExactly")
+               \cup V(ev.writer = "sample" \/ ev.cur.out.whole = ev.cur["in"].whole, "CurrentReEncodesToIdenticalBytes")
+               \cup V(ev.writer = "sample" \/ ev.ref.out.whole = ev.ref["in"].whole, "ReferenceReEncodesToIdenticalBytes"))
 =============================================================================
